@@ -13,6 +13,8 @@ package memberlist
 import (
 	"fmt"
 	"net"
+	"runtime"
+	"strings"
 	"sync"
 	"sync/atomic"
 	"testing"
@@ -173,7 +175,7 @@ func vlRun(t *testing.T, c *vfCase, st *vfStats) {
 		conf.Events = vlDrain{&mp}
 		conf.GossipInterval = time.Hour
 	}
-	if len(c.Ops) > 0 && c.Ops[0][0] == 26 {
+	if len(c.Ops) > 0 && (c.Ops[0][0] == 26 || c.Ops[0][0] == 29) {
 		conf.GossipInterval = time.Hour
 	}
 	m, err := Create(conf)
@@ -359,6 +361,46 @@ func vlRun(t *testing.T, c *vfCase, st *vfStats) {
 		}
 		return
 	}
+	if len(c.Ops) > 0 && c.Ops[0][0] == 29 {
+		// Leave from another goroutine while UpdateNode is still waiting for its announcement to go out (nobody
+		// transmits: gossip is off).  Leave must be back by its own timeout, whatever UpdateNode is doing (real time).
+		updDone, leaveDone := make(chan struct{}), make(chan struct{})
+		var pan atomic.Bool
+		guard := func(f func(), done chan struct{}) {
+			defer close(done)
+			defer func() {
+				if recover() != nil {
+					pan.Store(true)
+				}
+			}()
+			f()
+		}
+		go guard(func() { _ = m.UpdateNode(2 * time.Second) }, updDone)
+		time.Sleep(50 * time.Millisecond)
+		go guard(func() { _ = m.Leave(300 * time.Millisecond) }, leaveDone)
+		stuck := false
+		select {
+		case <-leaveDone:
+		case <-time.After(time.Second):
+			stuck = true
+		}
+		select {
+		case <-updDone:
+		case <-time.After(4 * time.Second):
+			stuck = true
+		}
+		if stuck {
+			select {
+			case <-leaveDone:
+			case <-time.After(4 * time.Second):
+			}
+		}
+		c.Obs = append(c.Obs, []int64{vwBool(pan.Load()), vwBool(stuck), 0}, []int64{0, 0, 0})
+		st.Ops++
+		st.OpHist["leave_during_updatenode"]++
+		m.Shutdown()
+		return
+	}
 	if len(c.Ops) > 0 && c.Ops[0][0] == 24 {
 		// Shutdown while the transport's listener is handing a datagram over: the transport is torn down first
 		// and waits for its listener, which needs the node's packet loop to still be taking packets
@@ -461,6 +503,8 @@ func vlRun(t *testing.T, c *vfCase, st *vfStats) {
 	time.Sleep(time.Duration(conf.AwarenessMaxMultiplier) * conf.ProbeInterval)
 	synctest.Wait()
 	a2 := tr.after.Load()
+	// ... including the node's own long-running loops (tickers, listeners, hand-off handler)
+	gleft := vlLoops(m)
 	time.Sleep(10 * time.Minute)
 	synctest.Wait()
 	late := tr.after.Load() - a2
@@ -469,7 +513,7 @@ func vlRun(t *testing.T, c *vfCase, st *vfStats) {
 	if extra < 0 {
 		extra = 0
 	}
-	c.Obs = append(c.Obs, []int64{0, late, 0, extra})
+	c.Obs = append(c.Obs, []int64{gleft, late, 0, extra})
 	if !m.hasShutdown() {
 		// Shutdown returned without shutting the node down: stop it now so that the bubble can end
 		tr.failShutdown = false
@@ -547,6 +591,23 @@ func vlRealSockets(st *vfStats) {
 	}
 }
 
+// goroutines still inside one of THIS node's long-running loops (the receiver pointer is the first argument shown
+// in a stack trace)
+func vlLoops(m *Memberlist) int64 {
+	buf := make([]byte, 1<<20)
+	buf = buf[:runtime.Stack(buf, true)]
+	n := int64(0)
+	for _, g := range strings.Split(string(buf), "\n\n") {
+		for _, f := range []string{"(*Memberlist).triggerFunc", "(*Memberlist).pushPullTrigger", "(*Memberlist).packetListen", "(*Memberlist).streamListen", "(*Memberlist).packetHandler"} {
+			if strings.Contains(g, fmt.Sprintf("%s(%p", f, m)) {
+				n++
+				break
+			}
+		}
+	}
+	return n
+}
+
 func TestVfLife(t *testing.T) {
 	st := vfNewStats("life")
 	st.Rule = "random sequences of Members/NumMembers/LocalNode/UpdateNode/Leave (300 ms, 10 s or no timeout; given up on after a virtual while)/Shutdown/GetHealthScore/SendBestEffort/SendReliable/Ping/Join plus time advances past GossipToTheDeadTime and reaping passes, steered towards the left-and-reaped stage, on a node created with Create (tickers running) in virtual time; Leave after Shutdown excluded (documented panic); plus Leave repeated after a Leave that completed towards a live peer; plus one real-socket scenario for dials after Shutdown; distinct = distinct (call, panicked, overran, shut down, left) tuples"
@@ -567,7 +628,7 @@ func TestVfLife(t *testing.T) {
 				cases = append(cases, vfCase{Cfg: []int64{1}, Ops: [][]int64{{22}}}, vfCase{Cfg: []int64{1}, Ops: [][]int64{{23}}}, vfCase{Cfg: []int64{1}, Ops: [][]int64{{24}}})
 			}
 			if i == 0 {
-				cases = append(cases, vfCase{Cfg: []int64{1}, Ops: [][]int64{{25}}}, vfCase{Cfg: []int64{1}, Ops: [][]int64{{26}}})
+				cases = append(cases, vfCase{Cfg: []int64{1}, Ops: [][]int64{{25}}}, vfCase{Cfg: []int64{1}, Ops: [][]int64{{26}}}, vfCase{Cfg: []int64{1}, Ops: [][]int64{{29}}})
 			}
 			if i < 2 {
 				// Leave again after a Leave that completed (its departure was transmitted to a live peer by the
@@ -580,7 +641,7 @@ func TestVfLife(t *testing.T) {
 		vlRealSockets(st)
 	}
 	for i := range cases {
-		if len(cases[i].Ops) > 0 && (cases[i].Ops[0][0] == 20 || cases[i].Ops[0][0] == 25 || cases[i].Ops[0][0] == 26) {
+		if len(cases[i].Ops) > 0 && (cases[i].Ops[0][0] == 20 || cases[i].Ops[0][0] == 25 || cases[i].Ops[0][0] == 26 || cases[i].Ops[0][0] == 29) {
 			vlRun(t, &cases[i], st)
 			continue
 		}
